@@ -21,7 +21,7 @@ MANIFEST = {
                   "the first/last index of each run in order, never an index of a null, and vsorted_unique one value per run",
     "level_note": "trusted: Kani's MIR->goto translation, CBMC, CaDiCaL; std::fmt::format stubbed; results are mem::forget-ed instead of "
                   "dropped (the drop glue of TError / boxed iterators is outside the claim; it is what made the naive harness cost 790 s). "
-                  "Bounds: 1 value per vcut call quick, 2 thorough; E <= 3 (the statement's 0..5 edges / 0..6 labels beyond that are "
+                  "Bounds: 1 value per vcut call (2 at E = 2) quick, 2 at E in 1..=3 thorough; E <= 3 (the statement's 0..5 edges / 0..6 labels beyond that are "
                   "outside the bound); N <= 5 quick, <= 6 thorough; f64 run values from -8..=8",
 }
 
@@ -30,7 +30,7 @@ def check(v, tier, opts):
     v.functions.update(["tea_map::MapValidBasic::vcut (right x add_bounds)", "tea_map::MapValidBasic::vsorted_unique_idx (Keep::First, Keep::Last)",
                         "tea_map::MapValidBasic::vsorted_unique", "itertools tuple_windows / zip as compiled"])
     if tier == "quick":
-        v.bounds.append("quick: vcut with 1 value, E in 0..=3 edges, label counts 0..=E+1; vsorted_unique(_idx) N in {0,1,2,5} for Option<i32> "
+        v.bounds.append("quick: vcut with 1 value, E in 0..=3 edges, label counts 0..=E+1, and with 2 consecutive values at E = 2 (state carried between values); vsorted_unique(_idx) N in {0,1,2,5} for Option<i32> "
                         "(unconstrained run values), N in {0,1,2} for f64 (run values -8..=8, NaN nulls)")
     else:
         v.bounds.append("thorough: quick plus vcut with 2 values (E in 1..=3), vsorted_unique(_idx) N in {3,4,6} (f64 also 5), leading-null Keep::Last at N in {3,5}")
